@@ -343,9 +343,11 @@ pub fn run(cx: &mut Ctx) {
     }
     let mut r = Rng::new(cx.shard_seed());
     let per_cfg = cx.budget(1152 * 6_000, 1152 * 150_000) / 1152 * cx.nshards;
+    // cfg_stride > 1 (Miri runs): only every n-th configuration of this shard
+    let cfg_stride = cx.opt_u64("cfg_stride", 1);
     // the whole configuration lattice, shared between shards
     for ci in 0..1152u32 {
-        if !cx.mine(ci as u64) {
+        if !cx.mine(ci as u64) || (ci as u64 / cx.nshards) % cfg_stride != 0 {
             continue;
         }
         let base = Cfg::from_index(ci);
@@ -366,7 +368,7 @@ pub fn run(cx: &mut Ctx) {
     }
     // limits through every configuration
     for ci in 0..1152u32 {
-        if !cx.mine(ci as u64 + 7) {
+        if !cx.mine(ci as u64 + 7) || (ci as u64 / cx.nshards) % cfg_stride != 0 {
             continue;
         }
         let cfg = Cfg::from_index(ci);
@@ -382,7 +384,7 @@ pub fn run(cx: &mut Ctx) {
         check_span_friendly(cx, &cfg, &MSpan::zero());
     }
     // ISO 8601
-    let n = cx.budget(6_000_000, 150_000_000);
+    let n = if cfg_stride > 1 { cx.budget(6_000_000, 150_000_000) / cfg_stride / 8 } else { cx.budget(6_000_000, 150_000_000) };
     for i in 0..n {
         let m = gen_span(&mut r);
         check_iso(cx, &m, r.chance(1, 2));
